@@ -1,0 +1,364 @@
+/*!
+Verification hooks. Only compiled with the `verif_hooks` cargo feature.
+
+This module exposes to an external verification harness:
+
+1. scheduling points ([`point`]) at the places where the database mutex is released,
+1. monotone event counters ([`bump`]/[`counter`]),
+1. thin wrappers over crate-private types (log reader/writer, table builder/reader).
+
+Nothing in here changes the behaviour of the database. With no callback installed a scheduling
+point is a single relaxed atomic load.
+*/
+
+#![allow(missing_debug_implementations)]
+
+use std::rc::Rc;
+use std::sync::atomic::{AtomicBool, AtomicU64, Ordering};
+use std::sync::Arc;
+
+use crate::fs::FileSystem;
+use crate::iterator::RainDbIterator;
+use crate::key::InternalKey;
+use crate::logs::{LogReader, LogWriter};
+use crate::tables::table::TwoLevelIterator;
+use crate::tables::{Table, TableBuilder};
+use crate::{DbOptions, Operation, ReadOptions};
+
+/// The type of the callback invoked at scheduling points.
+pub type PointCallback = dyn Fn(&'static str) + Send + Sync;
+
+static POINTS_ENABLED: AtomicBool = AtomicBool::new(false);
+static POINT_CALLBACK: parking_lot::RwLock<Option<Arc<PointCallback>>> =
+    parking_lot::RwLock::new(None);
+static ACTIVITY: AtomicU64 = AtomicU64::new(0);
+
+/// Install (or remove) the callback invoked at every scheduling point.
+pub fn set_point_callback(callback: Option<Arc<PointCallback>>) {
+    let mut guard = POINT_CALLBACK.write();
+    POINTS_ENABLED.store(callback.is_some(), Ordering::SeqCst);
+    *guard = callback;
+}
+
+/// A scheduling point. Never called while the database mutex is held.
+pub fn point(name: &'static str) {
+    ACTIVITY.fetch_add(1, Ordering::Relaxed);
+    if !POINTS_ENABLED.load(Ordering::Relaxed) {
+        return;
+    }
+
+    // Clone the callback out of the lock so that a blocking callback does not block installation
+    let maybe_callback = POINT_CALLBACK.read().clone();
+    if let Some(callback) = maybe_callback {
+        callback(name);
+    }
+}
+
+/// A monotone counter of hook activity (points hit and counters bumped).
+pub fn activity() -> u64 {
+    ACTIVITY.load(Ordering::Relaxed)
+}
+
+/// Events counted by the hooks.
+#[derive(Clone, Copy, Debug, PartialEq, Eq)]
+#[repr(usize)]
+pub enum Counter {
+    /// A read error was swallowed by an iterator `next`/`prev` and turned into end-of-data.
+    IterErrorSwallowed = 0,
+    /// The active memtable was rotated to the immutable slot.
+    MemtableRotated,
+    /// A writer was delayed by the level 0 slowdown trigger.
+    L0Slowdown,
+    /// A writer waited on the level 0 stop trigger.
+    L0Stop,
+    /// A writer waited for the immutable memtable to be flushed.
+    MemtableWait,
+    /// A compaction was completed by a trivial move.
+    TrivialMove,
+    /// A seek triggered compaction was picked.
+    SeekCompaction,
+    /// A size triggered compaction was picked.
+    SizeCompaction,
+    /// A manual compaction step was processed.
+    ManualCompaction,
+    /// A group commit with more than one writer was formed.
+    GroupCommitMulti,
+    /// A new version was installed.
+    VersionInstalled,
+    /// An obsolete file was removed.
+    ObsoleteFileRemoved,
+    /// A memtable was written to a table file.
+    MemtableFlushed,
+    /// A table compaction (non trivial) ran to its install step.
+    TableCompaction,
+    /// A damaged or orphaned log fragment was dropped by the log reader.
+    LogFragmentDropped,
+    /// Number of counters.
+    Count,
+}
+
+static COUNTERS: [AtomicU64; Counter::Count as usize] = {
+    #[allow(clippy::declare_interior_mutable_const)]
+    const ZERO: AtomicU64 = AtomicU64::new(0);
+    [ZERO; Counter::Count as usize]
+};
+
+/// Increment a counter.
+pub fn bump(counter: Counter) {
+    ACTIVITY.fetch_add(1, Ordering::Relaxed);
+    COUNTERS[counter as usize].fetch_add(1, Ordering::SeqCst);
+}
+
+/// Read a counter.
+pub fn counter(counter: Counter) -> u64 {
+    COUNTERS[counter as usize].load(Ordering::SeqCst)
+}
+
+/// Read all counters in declaration order.
+pub fn counters() -> Vec<u64> {
+    COUNTERS.iter().map(|c| c.load(Ordering::SeqCst)).collect()
+}
+
+/// A structural copy of an internal key.
+#[derive(Clone, Debug, PartialEq, Eq)]
+pub struct VKey {
+    /// The user key.
+    pub user_key: Vec<u8>,
+    /// The sequence number.
+    pub seq: u64,
+    /// True for a put, false for a deletion.
+    pub is_put: bool,
+}
+
+impl From<&InternalKey> for VKey {
+    fn from(key: &InternalKey) -> Self {
+        VKey {
+            user_key: key.get_user_key().to_vec(),
+            seq: key.get_sequence_number(),
+            is_put: key.get_operation() == Operation::Put,
+        }
+    }
+}
+
+impl VKey {
+    fn to_internal(&self) -> InternalKey {
+        InternalKey::new(
+            self.user_key.clone(),
+            self.seq,
+            if self.is_put {
+                Operation::Put
+            } else {
+                Operation::Delete
+            },
+        )
+    }
+}
+
+/// A table file as reported by the current version.
+#[derive(Clone, Debug, PartialEq, Eq)]
+pub struct VFile {
+    /// Level the file lives at.
+    pub level: usize,
+    /// File number.
+    pub number: u64,
+    /// Recorded file size.
+    pub size: u64,
+    /// Recorded smallest key.
+    pub smallest: VKey,
+    /// Recorded largest key.
+    pub largest: VKey,
+}
+
+/// A summary of internal database state.
+#[derive(Clone, Debug)]
+pub struct VState {
+    /// WAL number recorded in the version set.
+    pub version_set_wal_number: u64,
+    /// WAL number the database is appending to.
+    pub db_wal_number: u64,
+    /// The previous WAL number if a memtable is being flushed.
+    pub prev_wal_number: Option<u64>,
+    /// The manifest file number.
+    pub manifest_number: u64,
+    /// File numbers referenced by any live version.
+    pub live_files: Vec<u64>,
+    /// Table numbers protected because they are outputs of running compactions.
+    pub tables_in_use: Vec<u64>,
+    /// Number of versions in the version set.
+    pub num_versions: usize,
+    /// Whether background work is scheduled.
+    pub background_scheduled: bool,
+    /// Whether there is an immutable memtable.
+    pub has_immutable_memtable: bool,
+    /// Whether the current version wants a compaction.
+    pub needs_compaction: bool,
+    /// The sticky background error, if any.
+    pub bad_state: Option<String>,
+    /// The last published sequence number.
+    pub last_sequence: u64,
+    /// Whether any snapshot is live.
+    pub has_snapshots: bool,
+}
+
+/// Wrapper over the crate-private log writer.
+pub struct VLogWriter(LogWriter);
+
+impl VLogWriter {
+    /// Open a log for writing.
+    pub fn new(fs: Arc<dyn FileSystem>, path: &str, is_appending: bool) -> Result<Self, String> {
+        LogWriter::new(fs, path, is_appending)
+            .map(VLogWriter)
+            .map_err(|e| e.to_string())
+    }
+
+    /// Append a record.
+    pub fn append(&mut self, data: &[u8]) -> Result<(), String> {
+        self.0.append(data).map_err(|e| e.to_string())
+    }
+}
+
+/// Wrapper over the crate-private log reader.
+pub struct VLogReader(LogReader);
+
+impl VLogReader {
+    /// Open a log for reading from the start.
+    pub fn new(fs: Arc<dyn FileSystem>, path: &str) -> Result<Self, String> {
+        LogReader::new(fs, path, 0)
+            .map(VLogReader)
+            .map_err(|e| e.to_string())
+    }
+
+    /// Read the next record; `Ok(None)` at the end of the log.
+    pub fn read_record(&mut self) -> Result<Option<Vec<u8>>, String> {
+        match self.0.read_record() {
+            Ok((_, true)) => Ok(None),
+            Ok((record, false)) => Ok(Some(record)),
+            Err(e) => Err(e.to_string()),
+        }
+    }
+}
+
+/// Build table file `file_number` under `options.db_path` from sorted entries.
+pub fn build_table(
+    options: DbOptions,
+    file_number: u64,
+    entries: &[(VKey, Vec<u8>)],
+) -> Result<u64, String> {
+    let mut builder = TableBuilder::new(options, file_number).map_err(|e| e.to_string())?;
+    for (key, value) in entries {
+        builder
+            .add_entry(Rc::new(key.to_internal()), value)
+            .map_err(|e| e.to_string())?;
+    }
+    builder.finalize().map_err(|e| e.to_string())?;
+
+    Ok(builder.file_size())
+}
+
+/// The result of a point lookup in a single table.
+#[derive(Clone, Debug, PartialEq, Eq)]
+pub enum VGet {
+    /// A value was found.
+    Value(Vec<u8>),
+    /// A deletion marker was found.
+    Deleted,
+    /// The table does not have an entry for the key.
+    NotInFile,
+}
+
+/// Wrapper over the crate-private table reader.
+pub struct VTable {
+    table: Arc<Table>,
+}
+
+impl VTable {
+    /// Open table file `file_number` under `options.db_path`.
+    pub fn open(options: DbOptions, file_number: u64) -> Result<Self, String> {
+        let file_name_handler =
+            crate::file_names::FileNameHandler::new(options.db_path().to_string());
+        let path = file_name_handler.get_table_file_path(file_number);
+        let file = options
+            .filesystem_provider()
+            .open_file(&path)
+            .map_err(|e| e.to_string())?;
+        let table = Table::open(options, file).map_err(|e| e.to_string())?;
+
+        Ok(VTable {
+            table: Arc::new(table),
+        })
+    }
+
+    /// Point lookup of the newest entry for `user_key` with a sequence number `<= seq`.
+    pub fn get(&self, user_key: &[u8], seq: u64) -> Result<VGet, String> {
+        let key = InternalKey::new_for_seeking(user_key.to_vec(), seq);
+        match self.table.get(&ReadOptions::default(), &key) {
+            Ok(Some(value)) => Ok(VGet::Value(value)),
+            Ok(None) => Ok(VGet::Deleted),
+            Err(crate::tables::errors::ReadError::KeyNotFound) => Ok(VGet::NotInFile),
+            Err(e) => Err(e.to_string()),
+        }
+    }
+
+    /// Get an (initially invalid) iterator over the table.
+    pub fn iter(&self) -> VTableIter {
+        VTableIter {
+            inner: Table::iter_with(Arc::clone(&self.table), ReadOptions::default()),
+        }
+    }
+
+    /// List `(block offset, keys in the block)` for every data block of the table.
+    pub fn blocks(&self) -> Result<Vec<(u64, Vec<VKey>)>, String> {
+        self.table.verif_blocks()
+    }
+
+    /// Ask the filter block; `None` if the table has no filter block.
+    pub fn filter_may_match(&self, block_offset: u64, user_key: &[u8]) -> Option<bool> {
+        self.table.verif_filter_may_match(block_offset, user_key)
+    }
+}
+
+/// Wrapper over the table iterator.
+pub struct VTableIter {
+    inner: TwoLevelIterator,
+}
+
+impl VTableIter {
+    /// Whether the iterator is positioned at an entry.
+    pub fn is_valid(&self) -> bool {
+        self.inner.is_valid()
+    }
+
+    /// Seek to the first entry at or after `target`.
+    pub fn seek(&mut self, target: &VKey) -> Result<(), String> {
+        self.inner
+            .seek(&target.to_internal())
+            .map_err(|e| e.to_string())
+    }
+
+    /// Seek to the first entry.
+    pub fn seek_to_first(&mut self) -> Result<(), String> {
+        self.inner.seek_to_first().map_err(|e| e.to_string())
+    }
+
+    /// Seek to the last entry.
+    pub fn seek_to_last(&mut self) -> Result<(), String> {
+        self.inner.seek_to_last().map_err(|e| e.to_string())
+    }
+
+    /// Step forward.
+    pub fn next(&mut self) -> Option<(VKey, Vec<u8>)> {
+        self.inner.next().map(|(k, v)| (VKey::from(k), v.clone()))
+    }
+
+    /// Step backward.
+    pub fn prev(&mut self) -> Option<(VKey, Vec<u8>)> {
+        self.inner.prev().map(|(k, v)| (VKey::from(k), v.clone()))
+    }
+
+    /// The current entry.
+    pub fn current(&self) -> Option<(VKey, Vec<u8>)> {
+        self.inner
+            .current()
+            .map(|(k, v)| (VKey::from(k), v.clone()))
+    }
+}
